@@ -24,6 +24,7 @@ import (
 	"google.golang.org/grpc"
 	"google.golang.org/protobuf/types/known/emptypb"
 
+	"github.com/ozontech/seq-db/disk"
 	"github.com/ozontech/seq-db/mappingprovider"
 	"github.com/ozontech/seq-db/pkg/storeapi"
 	"github.com/ozontech/seq-db/proxy/bulk"
@@ -68,11 +69,13 @@ type recStore struct {
 	storeapi.UnimplementedStoreApiServer
 	mu    sync.Mutex
 	metas [][]byte // metas blocks of the Bulk requests
+	docs  [][]byte // docs blocks
 }
 
 func (s *recStore) Bulk(_ context.Context, req *storeapi.BulkRequest) (*emptypb.Empty, error) {
 	s.mu.Lock()
 	s.metas = append(s.metas, append([]byte(nil), req.Metas...))
+	s.docs = append(s.docs, append([]byte(nil), req.Docs...))
 	s.mu.Unlock()
 	return &emptypb.Empty{}, nil
 }
@@ -103,7 +106,11 @@ func recordingStore() (*recStore, string, error) {
 
 // proxyFor builds the proxy the way cmd/seq-db does: proxyapi.NewIngestor from a config with the given drifts.
 func proxyFor(drift, fut time.Duration) (*proxyapi.Ingestor, error) {
-	key := fmt.Sprintf("%d/%d", drift, fut)
+	return proxyForSize(drift, fut, 1<<17)
+}
+
+func proxyForSize(drift, fut time.Duration, maxDoc int) (*proxyapi.Ingestor, error) {
+	key := fmt.Sprintf("%d/%d/%d", drift, fut, maxDoc)
 	if p, ok := proxies[key]; ok {
 		return p, nil
 	}
@@ -121,7 +128,7 @@ func proxyFor(drift, fut time.Duration) (*proxyapi.Ingestor, error) {
 		API:    proxyapi.APIConfig{SearchTimeout: time.Second, ExportTimeout: time.Second, GatewayAddr: "127.0.0.1:1"},
 		Search: search.Config{HotStores: hot, ReadStores: none, WriteStores: none},
 		Bulk: bulk.IngestorConfig{HotStores: hot, WriteStores: none, MaxInflightBulks: 4, AllowedTimeDrift: drift, FutureAllowedTimeDrift: fut,
-			MappingProvider: mp, MaxTokenSize: 1024, DocsZSTDCompressLevel: 1, MetasZSTDCompressLevel: 1, MaxDocumentSize: 1 << 17},
+			MappingProvider: mp, MaxTokenSize: 1024, DocsZSTDCompressLevel: 1, MetasZSTDCompressLevel: 1, MaxDocumentSize: maxDoc},
 	}, nil)
 	if err != nil {
 		return nil, err
@@ -141,9 +148,9 @@ func cfgCase(drift, fut, off time.Duration, layout int, orc *vh.Oracle, rep *vh.
 	}
 	st, _, _ := recordingStore()
 	st.mu.Lock()
-	st.metas = nil
+	st.metas, st.docs = nil, nil
 	st.mu.Unlock()
-	h := proxyapi.NewBulkHandler(p.BulkIngestor, p.Config.Bulk.MaxDocumentSize)
+	h := proxyapi.VerifIngestorHTTPHandler(p) // the handler NewIngestor built, router included
 	own := time.Now().Add(-off).UTC()
 	text := own.Format(timeLayouts[layout])
 	back, _ := time.Parse(timeLayouts[layout], text)
@@ -341,4 +348,79 @@ func lineCase(line string, chProc *vh.Channel, orc, orcProp *vh.Oracle, rep *vh.
 	c := reqCase{B: 4096, body: g.body}
 	res := procCase(chProc, c, "line-between-documents", startClass(line))
 	checkProperty(g, c, res, orcProp, rep)
+}
+
+// ---------------------------------------------------------------- the configured size limit
+
+// sizeCase: proxy built by the real NewIngestor with --max-document-size = limit; one bulk [before, document of n
+// bytes, after] through the handler NewIngestor built.  A line of n bytes ending in "\n" is within the limit iff
+// n + 1 <= max(limit, 16) (the reader's buffer is the limit; bufio's minimum is 16): in-limit => stored verbatim
+// and counted, over-size => skipped, neighbours stored, not counted.
+func sizeCase(limit, n int, orc *vh.Oracle, rep *vh.Report) {
+	line := fmt.Sprintf("sizecase %d %d", limit, n)
+	p, err := proxyForSize(24*time.Hour, time.Hour, limit)
+	if err != nil {
+		orc.Error = "proxy: " + err.Error()
+		return
+	}
+	st, _, _ := recordingStore()
+	st.mu.Lock()
+	st.metas, st.docs = nil, nil
+	st.mu.Unlock()
+	h := proxyapi.VerifIngestorHTTPHandler(p)
+	proxyapi.VerifResetReaderPool() // pooled readers keep the buffer of the handler that created them; one size per process in production
+	head := `{"k":"mid","p":"`
+	if n < len(head)+2 {
+		return
+	}
+	mid := head + strings.Repeat("y", n-len(head)-2) + `"}`
+	before, after := `{"k":"b"}`, `{"k":"a"}`
+	body := "{\"index\":{}}\n" + before + "\n{\"index\":{}}\n" + mid + "\n{\"index\":{}}\n" + after + "\n"
+	rec := httptest.NewRecorder()
+	h.ServeHTTP(rec, httptest.NewRequest(http.MethodPost, "/_bulk", strings.NewReader(body)))
+	want := []string{before, after}
+	inLimit := n+1 <= bufSize(limit)
+	if inLimit {
+		want = []string{before, mid, after}
+	}
+	orc.Case(line, !inLimit, fmt.Sprintf("limit=%d", limit), fmt.Sprintf("in-limit=%v", inLimit))
+	site := "proxyapi/ingestor.go:NewIngestor"
+	st.mu.Lock()
+	blocks := st.docs
+	st.mu.Unlock()
+	var r struct {
+		Items []json.RawMessage `json:"items"`
+	}
+	if rec.Code != 200 || json.Unmarshal(rec.Body.Bytes(), &r) != nil || len(blocks) != 1 {
+		violate(rep, vh.Violation{Site: site, Class: "valid-bulk-not-stored",
+			What: fmt.Sprintf("--max-document-size=%d, document of %d bytes between two small ones: status %d, %d bulk requests reached the store", limit, n, rec.Code, len(blocks)), Replay: []string{line}})
+		return
+	}
+	raw, derr := disk.DocBlock(blocks[0]).DecompressTo(nil)
+	got, ok := decodePayload(raw)
+	same := derr == nil && ok && len(got) == len(want)
+	for i := 0; same && i < len(want); i++ {
+		same = string(got[i]) == want[i]
+	}
+	if !same || len(r.Items) != len(want) {
+		what := "stored and reported as created although it is over the configured limit"
+		if inLimit {
+			what = "not stored verbatim although it is within the configured limit"
+		}
+		violate(rep, vh.Violation{Site: site, Class: "configured-size-limit-not-effective",
+			What:   fmt.Sprintf("proxy configured with --max-document-size=%d: a document line of %d bytes is %s (%d documents stored, %d items; expected %d)", limit, n, what, len(got), len(r.Items), len(want)),
+			Replay: []string{line}})
+	}
+}
+
+func runSizeOracle(orc *vh.Oracle, rep *vh.Report) {
+	for _, limit := range []int{512, 2048, 8192, 16384, 16385, 128 << 10} {
+		seen := map[int]bool{}
+		for _, n := range []int{limit - 2, limit - 1, limit, limit + 1, 2 * limit, 16<<10 - 1, 16 << 10, 16<<10 + 1, 100} {
+			if !seen[n] && n > 0 {
+				seen[n] = true
+				sizeCase(limit, n, orc, rep)
+			}
+		}
+	}
 }
